@@ -1622,7 +1622,11 @@ func c16CheckThenAct(c *engine.Ctx, rule string) {
 				// the table replaced as a whole (`m.tbl = make(…)`)
 				if fv, _ := engine.LoadedField(x.Addr); fv != nil {
 					if _, isMap := fv.Type().Underlying().(*types.Map); isMap {
-						if _, local := func() (ssa.Value, bool) { _, b := engine.LoadedField(x.Addr); _, isAl := b.(*ssa.Alloc); return nil, isAl }(); !local {
+						if _, local := func() (ssa.Value, bool) {
+							_, b := engine.LoadedField(x.Addr)
+							_, isAl := b.(*ssa.Alloc)
+							return nil, isAl
+						}(); !local {
 							writes[fv] = append(writes[fv], in)
 						}
 					}
